@@ -83,6 +83,9 @@ class Block(Entity):
         multi_tags = self._h5group.open_group("multi_tags")
         if name in multi_tags:
             raise exceptions.DuplicateName("create_multi_tag")
+        for data in (positions, extents):
+            if isinstance(data, DataArray) and data not in self.data_arrays:
+                raise RuntimeError("create_multi_tag: DataArray not found in Block!")
         poscreated = False
         extcreated = False
         try:
